@@ -579,14 +579,15 @@ Definition zsc := estimate_zscore approx_sqrt approx_pi std1 (fun _ => qz 0) cov
 Fixpoint all2 (tol : Qcanon.Qc) (a b : vec) : bool := match a, b with [], [] => true | x :: a', y :: b' => close tol x y && all2 tol a' b' | _, _ => false end.
 Definition same (tol mul : Qcanon.Qc) (A : nd) (e : list Z * vec) : bool :=
   shape_eqb (shape A) (fst e) && all2 tol (map (Qcanon.Qcmult mul) (ravel A)) (map (Qcanon.Qcmult mul) (snd e)).
-Inductive call := CScale (m : scale_method) (kd : bool) | CLoc (m : loc_method) (kd : bool) | CZ (l : loc_method) (m : scale_method).
+Inductive call := CScale (m : scale_method) (kd : bool) | CLoc (m : loc_method) (kd : bool) | CZ (l : loc_method) (m : scale_method) (el es : list Z * vec).
 Definition ok (c : (list Z * vec) * option Z * call * option (list Z * vec) * Qcanon.Qc) : bool :=
   let '(inp, ax, cl, exp, mul) := c in
   let A := nd_of_list (fst inp) (snd inp) in
   match cl with
   | CScale m kd => match est A m ax kd, exp with None, None => true | Some B, Some e => same (qdec 1 9) mul B e | _, _ => false end
   | CLoc m kd => match estimate_loc A m ax kd, exp with None, None => true | Some B, Some e => same (qdec 1 9) mul B e | _, _ => false end
-  | CZ l m => match zsc A l m ax, exp with None, None => true | Some (z, _, _), Some e => same (qdec 1 4) mul z e | _, _ => false end
+  | CZ l m el es => match zsc A l m ax, exp with None, None => true
+                    | Some (z, lo, s), Some e => same (qdec 1 4) (qz 1) z e && same (qdec 1 9) mul lo el && same (qdec 1 9) mul s es | _, _ => false end
   end.
 """
 
@@ -612,6 +613,30 @@ def correspondence(R, stats):
                 exp = "None"
         cases.append(f"(({zl(x.shape)}, {qlist(x.ravel())}), {ax}, {call}, {exp}, {mul})")
         meta.append(dict(what, shape=list(x.shape), axis=axis, x=tolist(x), impl=exp[:200]))
+
+    def add_z(x, axis, lm, m, what, mul="(qz 1)"):
+        # all three fields of the result: the Z-scores (relative 1e-4: float32), and the location / divisor returned (ZScoreResult.loc, .scale:
+        # float64, compared after multiplying by mul), shapes included
+        def arr(v):
+            v = np.asarray(v, dtype=np.float64)
+            return f"({zl(v.shape)}, {qlist(v.ravel())})" if np.all(np.isfinite(v)) else None
+        el = es = "([], nil)"
+        holder = {}
+
+        def fn():
+            if "r" not in holder:
+                holder["r"] = stats.estimate_zscore(x, lm, m, axis)
+            return holder["r"].data
+        with warnings.catch_warnings():
+            warnings.simplefilter("ignore")
+            try:
+                fn()
+                el, es = arr(holder["r"].loc), arr(holder["r"].scale)
+                if el is None or es is None:
+                    return
+            except Exception:  # noqa: BLE001
+                pass
+        add(x, axis, f"CZ {COQ_LOC[lm]} {COQ_SCALE[m]} {el} {es}", fn, what, mul)
 
     for shape in shapes:
         n = int(np.prod(shape))
@@ -641,8 +666,14 @@ def correspondence(R, stats):
                 if kind in (0, 1, 2):
                     for lm, m in (("median", "mad"), ("mean", "std"), ("median", "iqr"), ("norm", "qn"), ("median", "doublemad"),
                                   ("mean", "doublemad"), ("median", "sn"), ("mean", "gapper"), ("median", "norm")):
-                        add(x, axis, f"CZ {COQ_LOC[lm]} {COQ_SCALE[m]}", lambda: stats.estimate_zscore(x, lm, m, axis).data,
-                            {"call": "estimate_zscore", "loc": lm, "scale": m})
+                        add_z(x, axis, lm, m, {"call": "estimate_zscore", "loc": lm, "scale": m})
+                    if kind in (1, 2):
+                        # the 'norm' methods together, and lanes with a zero scale estimate under x -> a x + b (unit divisor on both sides)
+                        add_z(x, axis, "norm", "norm", {"call": "estimate_zscore", "loc": "norm", "scale": "norm"})
+                        add_z(x, axis, "mean", "norm", {"call": "estimate_zscore", "loc": "mean", "scale": "norm"})
+                        y = -0.5 * x + 3.0
+                        for lm, m in (("median", "iqr"), ("mean", "qn"), ("median", "doublemad")):
+                            add_z(y, axis, lm, m, {"call": "estimate_zscore", "loc": lm, "scale": m, "input": "-0.5 x + 3"})
     # small-amplitude data (multiples of 2**-32): locations and scales are compared in units of 2**-30, so that the 1e-9 of `close` is
     # relative to the data.  The generated definitions read the zero-MAD test of mad / doublemad as `= 0`; an implementation that decides
     # it with an absolute threshold (np.isclose(mad, 0): 1e-8, repaired by 35a5e4f) returns the mean-deviation fallback here and differs
@@ -667,8 +698,7 @@ def correspondence(R, stats):
                         {"call": "estimate_loc", "method": lm, "amplitude": "2**-30"}, up)
                 if kind == 0:
                     for lm, m in (("median", "mad"), ("mean", "doublemad"), ("median", "doublemad"), ("median", "iqr"), ("mean", "std")):
-                        add(x, axis, f"CZ {COQ_LOC[lm]} {COQ_SCALE[m]}", lambda: stats.estimate_zscore(x, lm, m, axis).data,
-                            {"call": "estimate_zscore", "loc": lm, "scale": m, "amplitude": "2**-30"})
+                        add_z(x, axis, lm, m, {"call": "estimate_zscore", "loc": lm, "scale": m, "amplitude": "2**-30"}, up)
     per = 120
     shards = [(i, cases[i:i + per]) for i in range(0, len(cases), per)]
 
